@@ -335,6 +335,12 @@ impl Check for NftEnumerable {
     fn components(&self) -> serde_json::Value {
         serde_json::json!({"real": ["examples/nft-enumerable (from source)", "non_fungible::{Base, enumerable::Enumerable (sequential_mint, non_sequential_mint, index lists), burnable}", "Base wrapper: Base::sequential_mint + Base::mint with explicit ids"], "stub": ["Wallet"]})
     }
+    fn dup_ok(&self, s: &Step) -> bool {
+        !matches!(s, Step::MintId { .. })
+    }
+    fn reorder_ok(&self) -> bool {
+        true
+    }
     fn property_of(&self, check: &str) -> std::vec::Vec<&'static str> {
         if check.starts_with("owner.") || check.starts_with("balance.") || check.starts_with("enum.") || check.starts_with("supply.") || check.starts_with("ids.") || check.starts_with("others.") {
             vec!["C10"]
@@ -477,6 +483,14 @@ impl Check for NftEnumerable {
         let mut m = Model { now: cfg.start_ledger, ..Default::default() };
         let mut watch: BTreeSet<u32> = BTreeSet::new();
         for (i, s) in steps.iter().enumerate() {
+            if let Step::MintId { id: t, .. } = s {
+                if m.owner_of(*t).is_some() {
+                    // the library leaves uniqueness of explicit ids to the integrator; after a reordered delivery the
+                    // id may still exist, and the honest minter would not submit it
+                    st.hit("skipped.explicit_mint_of_existing_id");
+                    continue;
+                }
+            }
             let one = |who: Option<usize>, f: &'static str, args: soroban_sdk::Vec<soroban_sdk::Val>| match who {
                 Some(x) => w.set_auth(&[(x, Inv::new(&id, f, args))]),
                 None => w.set_auth(&[]),
